@@ -193,7 +193,7 @@ func sortedKeys(m M) []string {
 
 // applyEdit breaks one documented rule (or adds a warning-only condition). Several edits of the same kind on different
 // targets are what makes order dependence visible.
-const nEditKinds = 18
+const nEditKinds = 20
 
 func applyEdit(r *Rand, doc M, kind int) string {
 	defs, _ := doc["definitions"].(M)
@@ -362,6 +362,36 @@ func applyEdit(r *Rand, doc M, kind int) string {
 			req, _ := d["required"].([]any)
 			d["required"] = append(req, "ro"+n)
 			return "readonly-required:" + n
+		}
+	case 18, 19: // a default (18) / an example (19) that the inline schema of a response rejects, in one or two operations
+		n := 0
+		for k := 0; k < r.Range(1, 2); k++ {
+			_, _, op := anyOp()
+			if op == nil {
+				continue
+			}
+			resp, _ := op["responses"].(M)
+			ok, _ := resp["200"].(M)
+			if ok == nil {
+				continue
+			}
+			if kind == 18 {
+				ok["schema"] = M{"type": "object", "properties": M{"n": M{"type": "integer", "default": "bad" + fmt.Sprint(r.Intn(2))}}}
+			} else {
+				ok["schema"] = M{"type": "object", "properties": M{"n": M{"type": "integer"}}}
+				ok["examples"] = M{"application/json": M{"n": "bad" + fmt.Sprint(r.Intn(2))}}
+			}
+			if r.Chance(600) {
+				delete(op, "parameters")
+				delete(ok, "headers")
+			}
+			n++
+		}
+		if n > 0 {
+			if kind == 18 {
+				return "bad-response-default"
+			}
+			return "bad-response-example"
 		}
 	case 17: // schema-level violation of the Swagger meta-schema
 		if _, _, op := anyOp(); op != nil {
